@@ -245,8 +245,13 @@ def check_value(names, acc, do_stack=True, case=None, sep=" and "):
     # a value ending in a backslash is written with a blank before the closing delimiter (the dialect's escape
     # convention R3: a delimiter directly after a backslash is a character); the writer does the same (F26, F32)
     pad = lambda t: t + " " if t.endswith("\\") else t
-    for fld, (o, c) in (("author", "{}"), ("editor", '""'), ("translator", "{}")):
-        if not dialect.is_value(f"{o}{pad(value)}{c}") or not dialect.is_value(f"{o}{pad(merged)}{c}"):
+    import re as _re
+
+    routes = [("author", "{}"), ("editor", '""'), ("translator", "{}")]
+    if _re.fullmatch(r"[A-Za-z]+( +[A-Za-z]+)*", value):
+        routes.append(("author", ("", "")))  # written bare in the source (the parser takes it as it stands; no enclosing is recorded)
+    for fld, (o, c) in routes:
+        if ((o, c) != ("", "") and not dialect.is_value(f"{o}{pad(value)}{c}")) or not dialect.is_value(f"{o or '{'}{pad(merged)}{c or '}'}"):
             # the two escape conventions differ (e.g. '\\\\{}' is balanced for the name code but not for the
             # dialect, R3): such a value cannot be written into a document as it stands
             acc.count("value_not_embeddable")
